@@ -347,6 +347,12 @@ class Server(utils.EventEmitter):
             logger.warning('CCCD value not 2 bytes long')
             return
 
+        # A task-based write handler may get here after the connection has closed
+        connection = bearer.connection if att.is_enhanced_bearer(bearer) else bearer
+        if self.device.connections.get(connection.handle) is not connection:
+            logger.debug('connection closed, ignoring CCCD write')
+            return
+
         cccds = self.subscribers.setdefault(bearer, {})
         cccds[characteristic.handle] = value
         logger.debug(f'CCCDs: {cccds}')
